@@ -5,6 +5,7 @@
 package c10val
 
 import (
+	"time"
 	"sync/atomic"
 	"encoding/json"
 	"fmt"
@@ -495,7 +496,7 @@ func resealBlock(cs consensus.State, b *types.Block) {
 
 // Run is the validation half of C10.
 func Run(c *vf.Ctx) {
-	c.Set("validation_rule", "at every accepted block of a small union-alphabet DFS on every network family: every single structural mutation of the block and of its supplement (reflection walk: every field +-1 / byte flips / list drop, dup, swap, empty; integers and currencies set to 0, 1, 2^63, 2^64-1, 2^128-1, the unassigned-leaf sentinel; proofs resized to 0/63/64/65 hashes; out-of-range indices appended to every index list; pointers and interfaces set to nil; wrong / empty resolution types; policies nil, nested 31/32/33/200 deep, 255/256/1024/1025 wide; for every v1 signature the covered fields replaced by {one index list: [k]} for each of the ten lists and every k up to one past the transaction's longest list) is fed - as is and re-sealed (payout, commitment, nonce recomputed) - to ValidateBlock, ValidateOrphan, ValidateHeader, ValidateTransaction, ValidateV2Transaction, ValidateTransactionElements and (v2 blocks: the block is outlined and rebuilt with gateway.V2BlockOutline.Complete, as a relaying node does before it can validate) under recover; accepted mutants are applied and reverted; for a subset of block shapes (quick: 14 per network, thorough: all) additionally every PAIR of value-setting mutations on different leaves (at most 120 per block, evenly thinned); plus histories that contain a contract with an extreme file size (2^64-1, 2^64-63.., 2^63, ...; v1 and v2), followed at every height by storage proofs of several lengths, revisions and expirations for it")
+	c.Set("validation_rule", "at every accepted block of a small union-alphabet DFS on every network family: every single structural mutation of the block and of its supplement (reflection walk: every field +-1 / byte flips / list drop, dup, swap, empty; integers and currencies set to 0, 1, 2^63, 2^64-1, 2^128-1, the unassigned-leaf sentinel; proofs resized to 0/63/64/65 hashes; out-of-range indices appended to every index list; pointers and interfaces set to nil; wrong / empty resolution types; policies nil, nested 31/32/33/200 deep, 255/256/1024/1025 wide; for every v1 signature the covered fields replaced by {one index list: [k]} for each of the ten lists and every k up to one past the transaction's longest list) is fed - as is and re-sealed (payout, commitment, nonce recomputed) - to ValidateBlock, ValidateOrphan, ValidateHeader, ValidateTransaction, ValidateV2Transaction, ValidateTransactionElements and (v2 blocks: the block is outlined and rebuilt with gateway.V2BlockOutline.Complete, as a relaying node does before it can validate) under recover; accepted mutants are applied and reverted; for a subset of block shapes (quick: 10 per network, thorough: all) additionally every PAIR of value-setting mutations on different leaves (at most 80 - thorough 120 - per block, evenly thinned); plus histories that contain a contract with an extreme file size (2^64-1, 2^64-63.., 2^63, ...; v1 and v2), followed at every height by storage proofs of several lengths, revisions and expirations for it")
 	nets := []string{"mixed", "v1-eras", "v2-only", "v2-eph5"}
 	for _, n := range nets {
 		if c.Expired() {
@@ -504,6 +505,9 @@ func Run(c *vf.Ctx) {
 		sp := chain.Spec(n)
 		m := &chain.Model{Name: "union", Spec: sp, Menu: menu, Opt: chain.Options{},
 			H: vf.Pick[uint64](c, 7, 9), D: vf.Pick(c, 1, 2), K: vf.Pick(c, 2, 2), R: 0}
+		if c.Quick() && n != "mixed" {
+			m.K = 1 // quick: two-action blocks on the mixed network only (it has v1 and v2 eras)
+		}
 		if sp.Name == "mixed" {
 			m.SkipStart = 3
 			m.H += 3
@@ -545,14 +549,15 @@ func Run(c *vf.Ctx) {
 			// pairs: crashes that need TWO unusual values at once (a sum that overflows only when two addends are extreme,
 			// an index that is out of range only for a shortened list, ...): every pair of value-setting mutations
 			// (integers / currencies to extreme values, proofs resized, index lists extended) on different leaves
-			if pairShapes.Add(1) <= int64(vf.Pick(c, 14, 1<<30)) {
+			if pairShapes.Add(1) <= int64(vf.Pick(c, 10, 1<<30)) {
 				var num []chain.Mutation
 				for _, mt := range extremes(&b) {
 					if !notDecodable(mt.Path) && (strings.Contains(mt.Path, "=") || strings.Contains(mt.Path, "[len=") || strings.Contains(mt.Path, "[append ")) && !strings.Contains(mt.Path, "-policy") && !strings.Contains(mt.Path, "nested-") && !strings.Contains(mt.Path, "wide-") && !strings.Contains(mt.Path, "total-") {
 						num = append(num, mt)
 					}
 				}
-				if step := (len(num) + 119) / 120; step > 1 {
+				capN := vf.Pick(c, 80, 120)
+				if step := (len(num) + capN - 1) / capN; step > 1 {
 					var thin []chain.Mutation
 					for i := 0; i < len(num); i += step {
 						thin = append(thin, num[i])
@@ -588,9 +593,13 @@ func Run(c *vf.Ctx) {
 				c.Distinct(n, "supp"+stable(mt.Path))
 			}
 		}
+		tn := time.Now()
 		x := chain.NewExplorer(c, m, "C10")
 		x.Run()
+		c.Set("validation_net_wall_s:"+n, time.Since(tn).Seconds())
 	}
+	th := time.Now()
+	defer func() { c.Set("validation_histories_wall_s", time.Since(th).Seconds()) }()
 	hugeFiles(c, nil)
 	legacySiafunds(c, nil)
 	c.RequireFeature("blocks_mutated", "mutant_rejected", "mutant_accepted", "huge_file_contracts_formed", "huge_file_probes", "legacy_siafund_probes")
